@@ -1,5 +1,6 @@
 """C07 — TraitSet refines set; its change events are faithful deltas; copies."""
 import copy
+import gc
 import pickle
 
 from . import setlib as S
@@ -16,7 +17,10 @@ RULE = ("exhaustive single operations over the universe {0..3} (thorough: {0..4}
         "copy/deepcopy/pickle probes; seeded random histories of 1-10 operations with operands of every overlap "
         "pattern (subset, superset, disjoint, partial, equal, empty) x set/frozenset/list/generator x identity / "
         "coercing / rejecting / colliding (mod 5) / non-idempotent / k-th-call-fails validators with copy ops "
-        "interleaved (probe the copy, or continue on the copy); a '#' stream (oracle only) with the receiver as its "
+        "interleaved (probe the copy, or continue on the copy); the value of a Set(Int/CInt/CStr/Range(0,5)/Any) "
+        "TRAIT on a HasTraits owner (TraitSetObject): live, deep-copied, orphaned (owner deleted + gc), copy.copy'd, "
+        "unpickled and combinations x every mutator with valid / convertible / invalid items (fixed grid + random "
+        "histories); a '#' stream (oracle only) with the receiver as its "
         "own operand, non-iterable operands, unhashable and bool/float-colliding members; non-trivial = produced an "
         "observation, distinct = distinct canonical output line")
 TRUSTED = ["Py.PSet: hand model of the CPython set (duplicate-free list up to permutation, structural equality), "
@@ -30,7 +34,15 @@ TRUSTED = ["Py.PSet: hand model of the CPython set (duplicate-free list up to pe
            "implementation + oracle only)",
            "copy.copy / pickle go through set.__reduce_ex__ (CPython) + TraitSet.__getstate__/__setstate__; modelled "
            "as 'same members, validator restored, notifiers = []'"]
-ASSUMPTIONS = ["'validated items' = the items an operation may add; items only looked up or removed (remove, discard, "
+ASSUMPTIONS = ["rule derived from the pristine TraitSetObject (and proved of the translated _validator, "
+               "C07_validator_is_source / C07_trait_value_still_validates): a Set trait value validates new items "
+               "with the inner trait as the live value (with its owner), as a deep copy and after its owner was "
+               "collected (with owner None: same outcome for inner traits that do not consult the owner; an inner "
+               "trait that does, e.g. Range(low='lo'), then rejects EVERY item with AttributeError, never accepting "
+               "an invalid one) and as a copy.copy (through the original's bound validator); after a pickle round "
+               "trip of the value alone it does not validate at all, by design of __getstate__ which drops `trait` "
+               "(C14's subject; tagged, not a hit)",
+               "'validated items' = the items an operation may add; items only looked up or removed (remove, discard, "
                "&=, -=, difference_update, intersection_update, and the members of a ^= operand that are present) "
                "are used as given (the code never validates them)",
                "notifiers do not raise (C19's subject)",
@@ -42,6 +54,7 @@ EXHAUSTIVE = {"quick": True, "thorough": True}
 F24 = "symdiff-keeps:item-present-only-after-validation"
 F25 = "copy-revalidates:deepcopy-nonidempotent-validator"
 F26 = "difference_update-partial:operand-raises-midway"
+F25B = "copy-raises:deepcopy-trait-value-revalidates-without-owner"
 
 
 def corpus():
@@ -54,6 +67,11 @@ def corpus():
         "ts|intonly|[i1,i2]|cp d s9;cp c s9;cp p s9;sw d;ad s1;ad i5",
         # F25 (known): deepcopy re-validates
         "ts|inc|[i1]|cp d i0",
+        # the value of a Set trait: deep copy / orphaned value still validate (seeded change C07-m7)
+        "to|Int|[i1,i2]|ad i3;sw d;ad s9;ud L[i7] L[s9];io S[i7,s9];ix S[i7,s9];sy L[i7,s9];ad i10;dc i10",
+        "to|Int|[i4,i5]|or;ad s9;ud L[i7] L[s9];io S[i7,s9];ix S[i7,s9];sy L[i7,s9];cp d s9;cp c s9;cp p s9",
+        "to|Range05|[i1]|sw c;ad i7;sw d;ad i7;sw p;ad i7",
+        "#to|DRange|[i1,i2]|ad i3;ad i9;sw d;ad i4;ad i9;cp d i1",
         "ts|id|[i1,i2,i3]|ix S[i2,i3,i5];ia S[i1,i2,i3,i0];ud L[i6,i7] G[] L[i12,i8];po i1",
         "ts|mod5|[i1,i2]|ud L[i6,i7] L[] L[i12,i8];io S[i11];io L[i11];rm i6;rm i1;dc i9;cl;cl;po _",
         "ts|failk:1:ValueError|[]|ad i1;ud L[i1,i2];io S[i1,i2];ix S[i1,i2];sy L[i1,i2];ix S[i1];iu;du L[i1] L[i5]",
@@ -77,6 +95,10 @@ def generate(rng, tier):
         yield resolve(c)
     for c in S.exhaustive_single_ops(t, "ps"):
         yield resolve(c)
+    for c in S.trait_value_cases():
+        yield resolve(c)
+    for _ in range(nh // 3):
+        yield resolve(S.random_trait_history(rng))
     for _ in range(nh):
         yield resolve(S.random_history(rng, "ts"))
     for _ in range(nh // 4):
@@ -165,6 +187,46 @@ def make_copy(ts, kind):
 
 KIND_NAME = {"c": "copy", "d": "deepcopy", "p": "pickle", "m": "copy-method"}
 
+_OWNER = None
+
+
+def owner_class():
+    """A HasTraits class with one Set(<inner trait>) trait per inner trait of the `to` stream."""
+    global _OWNER
+    if _OWNER is None:
+        from traits.api import HasTraits, Set, Int, CInt, CStr, Range, Any
+
+        class Owner(HasTraits):
+            lo = Int(0)
+            hi = Int(5)
+            t_Int = Set(Int)
+            t_CInt = Set(CInt)
+            t_CStr = Set(CStr)
+            t_Range05 = Set(Range(0, 5))
+            t_Any = Set(Any)
+            t_DRange = Set(Range(low="lo", high="hi"))      # consults the owner ('#' lines only)
+        _OWNER = Owner
+    return _OWNER
+
+
+class TraitValidator:
+    """The inner trait of a Set trait, on a FRESH owner: what 'valid' means for the oracle."""
+
+    def __init__(self, attr):
+        self.attr = attr
+        self.kind = attr[2:]
+        self.ref = owner_class()()
+        self.needs_owner = attr == "t_DRange"
+
+    def reset(self):
+        pass
+
+    def pure(self, n, x):
+        return self.ref.trait(self.attr).handler.item_trait.validate(self.ref, self.attr, x)
+
+
+IDENTITY = S.Validator("id")
+
 
 def _run(case, resolving=False):
     from traits.trait_set_object import TraitSet
@@ -196,7 +258,8 @@ def _run(case, resolving=False):
                 outs.append("err " + S.exc_name(e))
         tags.add("ps")
         return finish()
-    v = S.Validator(vs)
+    obj = None            # bookkeeping for the value of a Set trait (kind "to")
+    v = S.Validator(vs) if kind != "to" else None
     calls = []
 
     def attach(ts):
@@ -208,7 +271,19 @@ def _run(case, resolving=False):
                 set_event_factory(t, removed, added)),
         ]
     try:
-        ts = TraitSet(init, item_validator=v)
+        if kind == "to":
+            attr = "t_" + vs
+            own = owner_class()()
+            setattr(own, attr, set(init))
+            ts = getattr(own, attr)
+            v = TraitValidator(attr)
+            # the rule derived from the pristine code (TraitSetObject._validator, __deepcopy__, __setstate__):
+            # own_trait = this object has a trait; val_trait = the object whose bound _validator is this
+            # object's item_validator has one.  It validates (with the inner trait, owner or None) iff val_trait.
+            obj = {"owner": own, "own_trait": True, "val_trait": True, "state": "live", "tv": v}
+            del own
+        else:
+            ts = TraitSet(init, item_validator=v)
     except Exception as e:
         outs.append("err " + S.exc_name(e))
         tags.add("init-err")
@@ -223,6 +298,94 @@ def _run(case, resolving=False):
         snap = set(ts)
         del calls[:]
         v.reset()
+        if obj is not None:
+            v = obj["tv"] if obj["val_trait"] else IDENTITY
+            tags.add("trait-value:" + obj["state"])
+        if k == "or":
+            if obj is None:
+                outs.append("bad-cmd")
+                continue
+            obj["owner"] = None
+            exc = pexc = None
+            gc.collect()
+            if obj["state"] == "live":
+                if ts.object() is None:
+                    obj["state"] = "orphan"
+                else:
+                    tags.add("harness:owner-not-collected")
+            outs.append("ok %s - -" % _srt(snap))
+            continue
+        # ------------------------------------------------------------ copies of the value of a Set trait
+        if k in ("cp", "sw") and obj is not None:
+            ck = cmd[1]
+            name = KIND_NAME[ck] + "-trait-value"
+            try:
+                c = make_copy(ts, ck)
+            except Exception as e:
+                sig = "copy-raises:" + name
+                if ck == "d" and obj["tv"].needs_owner and isinstance(e, AttributeError) and snap:
+                    sig = F25B
+                hits.append(_hit(sig, "%s of a Set trait value raised %s: %s" % (
+                    KIND_NAME[ck], type(e).__name__, str(e)[:120])))
+                outs.append("err " + S.exc_name(e))
+                continue
+            if ck == "d":            # TraitSetObject(self.trait, None, ...): own validator, own trait kept
+                c_own = c_val = obj["own_trait"]
+            elif ck == "c":          # __setstate__: trait dropped; item_validator stays the original's bound method
+                c_own, c_val = False, obj["val_trait"]
+            else:                    # pickle: the validator's owner went through __setstate__ too
+                c_own = c_val = False
+            if type(c) is not type(ts):
+                hits.append(_hit("copy-type:" + name, "%s gives a %s" % (name, type(c).__name__)))
+            if set(c) != snap:
+                hits.append(_hit("copy-differs:" + name, "%s is not equal to the original" % name,
+                                 original=_srt(snap), copied=_srt(set(c))))
+            if set(ts) != snap or len(ts.notifiers) != 2:
+                hits.append(_hit("copy-disturbs-original:" + name, "the original changed while being copied"))
+            if list(getattr(c, "notifiers", [None])) != [c.notifier]:
+                hits.append(_hit("copy-keeps-notifiers:" + name, "the copy's notifiers are not just its own inert "
+                                 "notifier: %r" % (getattr(c, "notifiers", None),)))
+            if calls:
+                hits.append(_hit("copy-notifies:" + name, "copying notified the original's notifiers"))
+            if k == "sw":
+                outs.append("ok %s - -" % _srt(set(c)))
+                ts = c
+                obj.update(own_trait=c_own, val_trait=c_val,
+                           state=KIND_NAME[ck] if obj["state"] in ("live", "orphan") else obj["state"] + "+" + KIND_NAME[ck])
+                attach(ts)
+                continue
+            vref = obj["tv"] if c_val else IDENTITY
+            if not c_val:
+                tags.add("restored-trait-value-does-not-validate(by-design)")
+            before = set(c)
+            probe = cmd[2]
+            try:
+                want, wexc = vref.pure(0, probe), None
+                hash(want)
+            except Exception as e:
+                want, wexc = None, e
+            try:
+                c.add(probe)
+                pexc = None
+            except Exception as e:
+                pexc = e.with_traceback(None)
+            owner_missing = obj["tv"].needs_owner and c_val and (ck == "d" or obj["owner"] is None)
+            if owner_missing and isinstance(pexc, AttributeError) and set(c) == before:
+                tags.add("owner-dependent-trait:rejects-everything-without-owner")
+            elif wexc is not None:
+                if pexc is None or set(c) != before:
+                    hits.append(_hit("copy-does-not-validate:" + name,
+                                     "the %s of a Set(%s) trait value accepted %r, which the inner trait rejects"
+                                     % (KIND_NAME[ck], obj["tv"].kind, probe)))
+                elif S.exc_name(pexc) != S.exc_name(wexc):
+                    hits.append(_hit("copy-does-not-validate:" + name, "wrong exception from the copy's add"))
+            elif pexc is not None or set(c) != before | {want}:
+                hits.append(_hit("copy-does-not-validate:" + name, "add on the %s did not store the validated item"
+                                 % name))
+            outs.append("copy %s notifiers=%d probe:%s" % (
+                _srt(before), len(getattr(c, "notifiers", [])),
+                "err " + S.exc_name(pexc) if pexc is not None else "ok " + _srt(set(c))))
+            continue
         # ------------------------------------------------------------ copies
         if k in ("cp", "sw"):
             ck = cmd[1]
@@ -308,7 +471,7 @@ def _run(case, resolving=False):
         try:
             ret = S.apply_op(ts, cmd)
         except Exception as e:
-            exc = e
+            exc = e.with_traceback(None)        # the traceback's frames would keep the owner alive
         after = set(ts)
         if k == "po":
             resolved[i] = "po " + (S.show_atom(ret[1]) if exc is None else "_")
@@ -316,6 +479,14 @@ def _run(case, resolving=False):
             rexc, ref, rret, new_items = reference(snap, cmd, v)
         except Exception as e:
             rexc, ref, rret, new_items = e, snap, None, None
+        sigp = ""
+        if obj is not None and obj["state"] != "live":
+            sigp = "not-validating:%s-trait-value:" % obj["state"]
+        if (obj is not None and obj["tv"].needs_owner and obj["val_trait"] and isinstance(exc, AttributeError)
+                and (obj["owner"] is None or obj["state"] != "live") and after == snap and not calls):
+            tags.add("owner-dependent-trait:rejects-everything-without-owner")
+            outs.append("err " + S.exc_name(exc))
+            continue
         if exc is not None:
             tags.add("err:" + S.exc_name(exc))
             if after != snap:
@@ -335,7 +506,7 @@ def _run(case, resolving=False):
             outs.append("err " + S.exc_name(exc))
             continue
         if rexc is not None:
-            hits.append(_hit("missing-exception:" + k, "%s succeeded where set on validated items raises %s"
+            hits.append(_hit(sigp + "missing-exception:" + k, "%s succeeded where set on validated items raises %s"
                              % (k, S.exc_name(rexc))))
         elif k == "po":
             if ret[1] not in snap or after != snap - {ret[1]}:
@@ -343,7 +514,7 @@ def _run(case, resolving=False):
         else:
             if after != ref:
                 f17 = k in ("ix", "sy") and new_items is not None and bool(new_items & snap)
-                hits.append(_hit(F24 if f17 else "contents-differ:" + k,
+                hits.append(_hit(F24 if f17 else sigp + "contents-differ:" + k,
                                  "contents differ from the builtin set on validated items",
                                  before=_srt(snap), expected=_srt(ref), observed=_srt(after)))
             if (ret is S.Self) != (rret is S.Self):
